@@ -27,7 +27,7 @@ def gen(rng, k):
         cas = []
         for j in range(rng.randint(1, 3)):
             phase = rng.choice(['normal', 'normal', 'normal', 'none', 'wait'])
-            a = addr() if phase != 'wait' else rng.choice(gen_ca.VETO)
+            a = addr() if phase != 'wait' else rng.choice(gen_ca.VETO[:60])
             reqs = [cid + 1 + x for x in range(rng.randint(1, 2))]
             cas.append(dict(name=gen_ca.mk_name(rng, rng.random() < 0.5), addr=a, bypass=(phase == 'normal'), subs=[cid], req=reqs))
             meta.append(dict(stack=s, ca=j, phase=phase, addr=a, reqs=reqs, name=cas[-1]['name'] & ~(1 << 48)))
@@ -35,6 +35,20 @@ def gen(rng, k):
             if phase == 'wait':
                 script.append(dict(t=1_000_000, s=s, op='ca_start', ca=j, delay=0))     # WAIT_VETO during [1.0 s, 1.25 s)
         stacks.append(dict(dll='j1939-21', max_cmdt=1, subs=[], cas=cas))
+    if rng.random() < 0.4:
+        # a CA that lost its preferred address A to a lower NAME and now HOLDS A+1: it must answer from the address it holds
+        A = rng.randrange(200, 240)
+        low = gen_ca.mk_name(rng, False) & ((1 << 40) - 1)
+        high = gen_ca.mk_name(rng, True) | (1 << 62)
+        s1 = len(stacks)
+        stacks.append(dict(dll='j1939-21', max_cmdt=1, subs=[], cas=[dict(name=low, addr=A, bypass=False, subs=[cid], req=[cid + 1])]))
+        meta.append(dict(stack=s1, ca=0, phase='normal', addr=A, reqs=[cid + 1], name=low & ~(1 << 48)))
+        cid += 10
+        stacks.append(dict(dll='j1939-21', max_cmdt=1, subs=[], cas=[dict(name=high, addr=A, bypass=False, subs=[cid], req=[cid + 1])]))
+        meta.append(dict(stack=s1 + 1, ca=0, phase='normal', addr=A + 1, reqs=[cid + 1], name=high & ~(1 << 48), moved_from=A))
+        cid += 10
+        script.append(dict(t=1000, s=s1, op='ca_start', ca=0, delay=0))
+        script.append(dict(t=rng.choice([1000, 1200, 100000]), s=s1 + 1, op='ca_start', ca=0, delay=0))
     owned = [m['addr'] for m in meta]
     for _ in range(rng.randint(1, 5)):
         t = 1_000_000 + rng.randint(2000, 200000)
